@@ -7,6 +7,8 @@ import RsslVerif.Lemmas.FixpointLeaf
 import RsslVerif.Thm.C09
 import RsslVerif.Lemmas.FixpointNamesWF
 import RsslVerif.Gen.PathLookup
+import RsslVerif.Gen.TemplateConst
+import RsslVerif.Lemmas.FixpointTemplate
 /-!
 # C04 — emitted DirectX HLSL is accepted by the front end and is a fixpoint
 
@@ -814,5 +816,131 @@ theorem fixpoint_expr_paths {Γ Γ' : Env} (hR : Renamed Γ Γ') {T' : Table} {u
   fixpoint_expr hR (namesAgree_of_pathsResolveBack uses hP hloc hglob hfunc) hI dbg dbg' hs hel he hg
 
 end Names
+
+/-! ## Template value arguments: the literal KIND leg (seeded mutant C04-4)
+
+`leaf_value_preserved` speaks of the *values* of constants.  A constant also has a *kind*, and the printed text carries
+it only through its spelling: `3` is an `IntLiteral`, `3u` a `UInt32`, `true` a `Bool` — an `Int32` has no spelling of
+its own (`reread_only_int32`).  For constants that arise under a conversion (`int y = 3;`) the conversion is found again
+(`reelab_no_new_casts`).  A template value parameter is the place where a constant enters an expression **without** a
+conversion: every use of `N` inside the instance is a constant of the kind recorded for the argument. -/
+section Template
+open RsslVerif.Gen.RankTable RsslVerif.Gen.TypingTables
+open RsslVerif.Model.Conv RsslVerif.Model.Overload RsslVerif.Model.IrTyping RsslVerif.Model.Elab RsslVerif.Model.Fixpoint
+open RsslVerif.Model.FixpointTemplate RsslVerif.Lemmas.FixpointTemplate RsslVerif.Lemmas.FixpointElab
+open RsslVerif.Lemmas.FixpointStmt
+
+/-- **template_const_as_modelled** (obligation, re-extracted on every run by `Gen.TemplateConst`): `find_overload_casts`
+    records a constant template argument unchanged (`Constant(c) => Constant(c)`: `recordKind = restrictKind`; seeded
+    mutant C04-4 breaks this conjunct); `parse_and_evaluate_constant_expression` and `unrestrict` keep the kind of every
+    constant (`restrictKind`, `unrestrictKind`; the 64-bit kinds are outside `Scalar`); the instance gets
+    `ScopeSymbol::Constant(c.unrestrict())` for the parameter (`substValue`); the call site prints
+    `generate_literal(c.unrestrict())` (`secondRecordKind` goes through `rereadKind`); the parameter's printed type name
+    per kind is `valueTypeName`. -/
+theorem template_const_as_modelled :
+    RsslVerif.Gen.TemplateConst.recordArms =
+      [("Type", "ir::TypeOrConstant::Type(normalize_template_type(ty, context))"),
+       ("Constant", "ir::TypeOrConstant::Constant(c)")] ∧
+    (∀ k : Scalar, (RsslVerif.Gen.TemplateConst.restrictTable.find? (fun r => r.1 == k.name)).map (·.2) =
+      (restrictKind k).map Scalar.name) ∧
+    (∀ r ∈ RsslVerif.Gen.TemplateConst.restrictTable, r.1 = r.2) ∧
+    (∀ r ∈ RsslVerif.Gen.TemplateConst.unrestrictTable, r.1 = r.2) ∧
+    (∀ r ∈ RsslVerif.Gen.TemplateConst.restrictTable, r ∈ RsslVerif.Gen.TemplateConst.unrestrictTable) ∧
+    RsslVerif.Gen.TemplateConst.substitutedSymbol = "ScopeSymbol::Constant(c.clone().unrestrict())" ∧
+    RsslVerif.Gen.TemplateConst.callSiteExpr = "generate_literal(&c.clone().unrestrict(), context)?" ∧
+    (∀ k : Scalar, (RsslVerif.Gen.TemplateConst.valueTypeNames.find? (fun r => r.1 == k.name)).map (·.2) =
+      valueTypeName k) := by
+  refine ⟨rfl, ?_, by decide, by decide, by decide, rfl, rfl, ?_⟩
+  · intro k; cases k <;> decide
+  · intro k; cases k <;> decide
+
+/-- **emitted_literal_kind_stable** — the KIND clause next to `leaf_value_preserved`.  (1) every constant kind except
+    `Int32` is read back from its printed spelling with the kind the IR constant had (all eight scalar kinds are
+    printed and accepted); (2) a template argument the parser can write as a literal (any suffix kind `l` that
+    `parse_literal` accepts and the evaluator admits as a template argument) is recorded with a kind `r` that is not
+    `Int32`, the constant substituted for the parameter has that kind, and the second compilation — which sees the
+    argument as printed at the call site — records `r` again; (3) in general the second compilation records
+    `if r = Int32 then IntLiteral else r`.  Under the discipline of seeded mutant C04-4 (2) is false
+    (`mutant_discipline_loses_literal_kind`). -/
+theorem emitted_literal_kind_stable :
+    (∀ k : Scalar, k ≠ .int32 → rereadKind? k = some k) ∧
+    (∀ (l : RsslVerif.Gen.HlslGenTables.LitKind) (k r : Scalar), rereadTable l = some k → recordKind k = some r →
+      r ≠ .int32 ∧ instanceKind r = k ∧ rereadKind (instanceKind r) = instanceKind r ∧ secondRecordKind r = some r) ∧
+    (∀ k r : Scalar, recordKind k = some r → secondRecordKind r = some (if r = .int32 then .intLiteral else r)) := by
+  refine ⟨?_, ?_, ?_⟩
+  · intro k hk; cases k <;> first | exact absurd rfl hk | decide
+  · intro l k r hl hr
+    cases l <;> simp [rereadTable] at hl <;> subst hl <;> revert hr <;> cases r <;> decide
+  · intro k r hr
+    cases k <;> simp [recordKind, restrictKind] at hr <;> subst hr <;> decide
+
+/-- the second generation of an instance body.  Let `body` be a template body the parser can produce (`SrcOk`), `x` its
+    value parameter and `r` the kind recorded for the argument, **not `Int32`** (by `emitted_literal_kind_stable` every
+    argument written as a literal qualifies).  Then the instance body `substValue x r body` is again a parser-producible
+    tree, so `reelab_no_new_casts` applies to it: every tree read from the export of its elaboration elaborates to the
+    same IR — no conversion appears around `N + 1`. -/
+theorem template_instance_reelab {Γ Γ' : Env} (hR : Renamed Γ Γ') (dbg dbg' : Bool) (x : Nat) {r : Scalar}
+    (hr : r ≠ .int32) {body : SExpr} (hb : SrcOk body) {i : IExpr} {τ : ETy}
+    (h : elabE dbg Γ (substValue x (instanceKind r) body) = .ok (i, τ)) {s' : SExpr} (hu : Unelab Γ' i s') :
+    elabE dbg' Γ' s' = .ok (i, τ) :=
+  reelab_no_new_casts hR dbg dbg' (subst_srcOk x (rereadKind_of_ne hr) body hb) h hu
+
+/-- …and for the statements of the C03 model (initialised definition, `return`, expression statement) -/
+theorem template_instance_reelab_stmt {Γ Γ' : Env} (hR : Renamed Γ Γ') (dbg dbg' : Bool) (x : Nat) {r : Scalar}
+    (hr : r ≠ .int32) {body : SStmt} (hb : SrcStmtOk body) {st : IStmt}
+    (h : elabStmt dbg Γ (substStmt x (instanceKind r) body) = .ok st) {s' : SStmt} (hu : UnelabStmt Γ' st s') :
+    elabStmt dbg' Γ' s' = .ok st :=
+  reelab_stmt_no_new_casts hR dbg dbg' (substStmt_srcOk x (rereadKind_of_ne hr) body hb) h hu
+
+/-- `template<int N> .. { int y = N + 1; }`: variable 0 is `N`, variable 1 an `int` -/
+def ΓTpl : Env := { vars := [⟨{}, .scalar .int32⟩, ⟨{}, .scalar .int32⟩], funcs := [] }
+
+/-- `int y = N + 1;` -/
+def tplBody : SStmt := .init ⟨{}, .scalar .int32⟩ (.bin .add (.var 0) (.lit .intLiteral))
+
+/-- non-vacuity of `template_instance_reelab_stmt`: `f<3>` — the instance body `int y = 3 + 1;` (literal arithmetic under
+    a conversion to `int`) is accepted, its export `int y = (int)(3 + 1);` is accepted and elaborates to the same
+    statement; `f<3u>` likewise -/
+example :
+    (match elabStmt true ΓTpl (substStmt 0 (instanceKind .intLiteral) tplBody) with
+     | .ok (.init t (.cast c (.op .add args))) =>
+       (match unelab (uniqueNames ΓTpl) (.cast c (.op .add args)) with
+        | some s' => (match elabStmt false (uniqueNames ΓTpl) (.init t s') with
+                      | .ok (.init _ (.cast _ (.op .add _))) => true
+                      | _ => false)
+        | none => false)
+     | _ => false) = true := by decide
+
+/-- **emitted_literal_kind_int32_witness** (negation witness on the *current* code = known finding `a template value
+    argument of kind Int32 is printed bare`): `static const int K = 3; .. f<K>(..)` records `Int32`; the second
+    compilation records `IntLiteral`; the instance body `int y = N + 1;` is `int y = Add(Int32, Int32)` (no cast: the
+    literal `1` is re-tagged), its export reads `Add(IntLiteral, IntLiteral)` and elaborates to
+    `int y = Cast(int, Add(IntLiteral, IntLiteral))` — printed `(int)(3 + 1)`: accepted, not a fixpoint.  So the
+    hypothesis `r ≠ Int32` of `template_instance_reelab_stmt` can not be dropped.  Reproducer in corpus/C04.txt. -/
+theorem emitted_literal_kind_int32_witness :
+    recordKind .int32 = some .int32 ∧ secondRecordKind .int32 = some .intLiteral ∧
+    rereadKind (instanceKind .int32) ≠ instanceKind .int32 ∧
+    (match elabStmt true ΓTpl (substStmt 0 (instanceKind .int32) tplBody) with
+     | .ok (.init t (.op .add (.cons (.lit .int32) (.cons (.lit .int32) .nil)))) =>
+       (match unelab (uniqueNames ΓTpl) (.op .add (.cons (.lit .int32) (.cons (.lit .int32) .nil))) with
+        | some s' => (match elabStmt true (uniqueNames ΓTpl) (.init t s') with
+                      | .ok (.init _ (.cast _ (.op .add (.cons (.lit .intLiteral) (.cons (.lit .intLiteral) .nil))))) => true
+                      | _ => false)
+        | none => false)
+     | _ => false) = true := by
+  refine ⟨by decide, by decide, by decide, by decide⟩
+
+/-- **mutant_discipline_loses_literal_kind** (negation witness for the discipline of seeded mutant C04-4, `f<3>` with
+    `normalize_template_constant`): a literal argument is recorded as `Int32`, the second compilation — which applies the
+    same discipline to the re-read `IntLiteral` — records `Int32` again, but the *body* of the instance was printed with
+    bare constants, so by `emitted_literal_kind_int32_witness` its second generation differs.  Clause (2) of
+    `emitted_literal_kind_stable` fails for it: the recorded kind of a literal argument is `Int32`. -/
+theorem mutant_discipline_loses_literal_kind :
+    rereadTable .IntUntyped = some .intLiteral ∧ recordKindNormalized .intLiteral = some .int32 ∧
+    recordKind .intLiteral = some .intLiteral ∧
+    rereadKind (instanceKind .int32) = .intLiteral := by
+  refine ⟨rfl, by decide, by decide, by decide⟩
+
+end Template
 
 end RsslVerif.Thm.C04
